@@ -159,13 +159,19 @@ def main():
         lines = [delim.join(cols) + '\n']
         kinds = []
         for p in range(1, 41):
-            k = rng.choice(['ok', 'ok', 'short', 'long', 'empty-cells'])
+            k = rng.choice(['ok', 'ok', 'short', 'long', 'empty-cells', 'long-empty-tail', 'long-empty-head', 'short-empty'])
             if k == 'ok':
                 lines.append(delim.join([str(p), f'a{p}', f'b{p}', str(p % 2)]) + '\n')
             elif k == 'short':
                 lines.append(delim.join([str(p), f'a{p}', str(p % 2)]) + '\n')
             elif k == 'long':
                 lines.append(delim.join([str(p), f'a{p}', f'b{p}', 'zz', str(p % 2)]) + '\n')
+            elif k == 'long-empty-tail':          # one field too many, the extra one empty (a record ending with the delimiter)
+                lines.append(delim.join([str(p), f'a{p}', f'b{p}', str(p % 2), '']) + '\n')
+            elif k == 'long-empty-head':
+                lines.append(delim.join(['', str(p), f'a{p}', f'b{p}', str(p % 2)]) + '\n')
+            elif k == 'short-empty':
+                lines.append(delim.join([str(p), '', '']) + '\n')
             else:
                 lines.append(delim.join([str(p), '', '', '']) + '\n')
             kinds.append(k)
